@@ -147,3 +147,24 @@ def print_lines(out):
             i = s + 2; continue
         res.append(v); i = p.i
     return res
+
+
+def sim_final_states(prefix, only=None):
+    """final state (dict var -> value) of every behaviour file written by `-simulate file=<prefix>,num=N`"""
+    import glob
+    out = []
+    for f in sorted(glob.glob(prefix + "_*")):
+        txt = open(f).read()
+        blocks = re.split(r"(?m)^STATE_\d+ ==\s*$", txt)
+        if len(blocks) < 2: continue
+        block = blocks[-1].split("\n====")[0].strip()
+        st = {}
+        for part in _CONJ.split(block):
+            part = part.strip()
+            if not part or " = " not in part: continue
+            name, rest = part.split(" = ", 1)
+            if only is None or name.strip() in only:
+                st[name.strip()] = tlaval.parse_value(rest)
+        out.append(st)
+        os.remove(f)
+    return out
